@@ -16,7 +16,10 @@
   `Hive.C11.cancellation_step`); sums of events over concatenated logs add up (`ledger_compose`),
   so per-step agreement is whole-run agreement; the waiting time is `now − departure` for every
   request that has been admitted and not yet cancelled, hence inside `[0, timeout)`
-  (`pickup_wait_range`).
+  (`pickup_wait_range`) - and per step of the cycle `step_pickup_waits`: after the pre-step phase
+  and any instructions, vehicle updates and driver phases, every pickup event of the step reports a
+  waiting time strictly between zero and the timeout (the premise, every waiting request has
+  departed, is re-established after the tick: an invariant of the cycle).
 
   Over whole runs (`Proofs.Books`: one walk through every function of the control model, lifted
   through `apply_instructions`, `perform_vehicle_state_updates` and the other phases of the
@@ -34,6 +37,7 @@
 import Hive.EventLedger
 import Proofs.EnterPost
 import Proofs.Books
+import Proofs.Waits
 import Mathlib.Tactic.Linarith
 import Mathlib.Tactic.Ring
 import Mathlib.Algebra.Order.Field.Rat
@@ -243,6 +247,26 @@ theorem run_entities {env : Env} (hg : Books.GainEnv env) {w0 w : World} (h : WR
     (v : VehicleId) (i : StationId) :
     ((w.sim.vehicle? v).isSome = (w0.sim.vehicle? v).isSome) ∧ ((w.sim.station? i).isSome = (w0.sim.station? i).isSome) :=
   Books.run_entities hg h v i
+
+
+/-! ### waiting times, per step of the cycle -/
+
+/-- **every pickup reports a waiting time between zero and the cancellation timeout** (stronger
+    than the statement's "plus one step"): from a well-formed state in which every waiting request
+    has departed, after the pre-step phase of the cycle (price update, admission of the rows of the
+    window - distinct fresh ids -, cancellation) and any sequence of instruction lists, vehicle
+    updates, driver phases (`Waits.MidReach`), every pickup event of the step has
+    `0 < wait < timeout`; the state is well-formed and after the tick every waiting request has
+    departed again, so the premises hold at the start of the next step -/
+theorem step_pickup_waits {env : Env} (cfg : Timed.Cfg) (names : Nat → List StationId) (hf : ∀ c, env.inFence c = true)
+    (inp : Timed.Inputs) (s : Sim) (hI : Timed.RInv env s) (hwf : s.WF) (hT : cfg.timeout ≤ 86400)
+    (hnd : ((inp.requests.read (fun r => r.req.departure) s.time).1.map (·.req.id)).Nodup)
+    (hfresh : ∀ row ∈ (inp.requests.read (fun r => r.req.departure) s.time).1, row.req.id ∉ s.requests.map (·.id))
+    (hwin : ∀ r ∈ s.requests, r.departure < s.time)
+    {w2 : World} (h : Waits.MidReach env (Timed.preStep env cfg names inp ⟨s, []⟩).1 w2) :
+    (∀ v r f wt, Event.pickup v r f wt ∈ w2.log → 0 < wt ∧ wt < cfg.timeout) ∧
+    w2.sim.WF ∧ (∀ r ∈ w2.sim.tick.requests, r.departure < w2.sim.tick.time) :=
+  Waits.step_pickup_waits cfg names hf inp s hI hwf hT hnd hfresh hwin h
 
 end C19
 end Hive
